@@ -303,7 +303,17 @@ class Explorer:
         ck = (qualname, key)
         if key is not None and ck in self.cache:
             return self.cache[ck]
-        I = Interp(self.prog, models=models, summaries={**self.summaries, **(summaries or {})}, max_depth=self.max_depth)
+        summ_all = {**self.summaries, **(summaries or {})}
+        # a summarised module-level function that moved to another module of the package and is imported where it was: the
+        # summary goes with it
+        for k_ in list(summ_all):
+            if k_ not in self.prog.functions and k_ not in self.prog.classes:
+                mod_, _, nm_ = k_.rpartition(".")
+                if mod_ in self.prog.modules:
+                    tgt_ = self.prog.resolve_name(mod_, nm_)
+                    if tgt_ and tgt_ in self.prog.functions and tgt_ not in summ_all:
+                        summ_all[tgt_] = summ_all[k_]
+        I = Interp(self.prog, models=models, summaries=summ_all, max_depth=self.max_depth)
         I.no_inline |= set(no_inline)
         if hooks:
             I.method_hooks.update(hooks)
@@ -908,3 +918,15 @@ def bool_helper_summary(ex, qual, roles=("set", "key")):
         return PredV(q)
 
     return h
+
+
+def bind_by_role(prog, qual, roles, positional):
+    """Arguments for the function `qual` from the roles its parameters play: a parameter whose name is a known role gets that
+    value wherever it stands (a method made static, a value now passed down as a parameter, parameters reordered); when a
+    name is not a known role the old positional hand-over is used (renamed parameters)."""
+    fi = prog.function(qual)
+    a = fi.node.args
+    params = [x.arg for x in a.posonlyargs + a.args]
+    if params and all(n in roles or (n in ("self", "cls") and "self" in roles) for n in params):
+        return [roles["self"] if n in ("self", "cls") else roles[n] for n in params], {}
+    return list(positional), {}
